@@ -172,12 +172,13 @@ class Mismatch(Exception):
 
 def reconstruct(t, obs, wait=False, nthreads=1):
     """rebuild the per-thread forests of brackets from consecutive snapshots.
-    Returns (program strings per thread, [(tag, thread, canonical impl snapshot)])."""
-    progs = [[] for _ in range(nthreads)]          # nested lists: node = [kind, op, extra, children]
+    Returns (program strings per thread, [(tag, thread, observation)])."""
+    progs = [[] for _ in range(nthreads)]          # node = [kind, op, extra, children]
     opens = [[] for _ in range(nthreads)]          # per thread: list of (key, node), base first
     tok2op = {}
     begun = set()
-    pending = {}                                   # thread -> (op, depth)
+    completed = set()
+    pending = {}                                   # thread -> (op, depth): a harness leaf announced its completion
     expected = []
     def body_of(th):
         return opens[th][-1][1][3] if opens[th] else progs[th]
@@ -192,65 +193,81 @@ def reconstruct(t, obs, wait=False, nthreads=1):
             if len(ch) != len(path):
                 raise Mismatch("chain-length: %s %s: frame chain %s has %d frames, the op tree path %s has %d" % (
                     o.what, o.id, ">".join(ch) or "-", len(ch), [t.label[x] for x in path], len(path)))
+            if len(set(ch)) != len(ch):
+                raise Mismatch("chain-cycle: %s %s: %s" % (o.what, o.id, ">".join(ch)))
             for tok, n in zip(ch, path):
                 tok2op[tok] = n
-        # 2. diff against the thread's open brackets
-        keys = [(k, rt, tuple(ch) if ch else None) for (k, rt, ch, fl) in stack]
+        # 2. diff against the thread's open brackets (a bracket = root address + kind + top frame address)
+        keys = [(k, rt, ch[0] if ch else None) for (k, rt, ch, fl) in stack]
         i = 0
-        while i < len(opens[th]) and i < len(keys) and (opens[th][i][0][0], opens[th][i][0][1]) == (keys[i][0], keys[i][1]) \
-                and (opens[th][i][0][2] == keys[i][2] or stack[i][3] or keys[i][2] is None or opens[th][i][0][2] is None
-                     or opens[th][i][0][2][0] == keys[i][2][0]):
+        while i < len(opens[th]) and i < len(keys) and opens[th][i][0] == keys[i]:
             i += 1
         del opens[th][i:]
-        for j in range(i, len(keys)):
+        nk = len(keys)
+        # 3. resolve the new brackets jointly (depth first over the candidates of each completion bracket)
+        def resolve(j, below, pend, beg):
+            if j == nk:
+                return []
             kind, rt, ch, flagged = stack[j]
-            below = opens[th][-1][1] if opens[th] else None
+            cands = []
             if kind == "E":
-                node = ["L", None, None, []]
+                cands = [("L", None)]
             elif wait and th == 0 and j == 0 and kind == "C":
-                node = ["W", 0, 1, []]
-                if ch: tok2op[ch[0]] = 0
+                cands = [("W", 0)]
             elif kind == "S":
                 op = tok2op.get(ch[0]) if ch else None
-                if ch and (op is None or op in begun or
-                           (len(ch) > 1 and tok2op.get(ch[1]) is not None and t.par.get(op) != tok2op.get(ch[1]))):
-                    # not on the observing leaf's path (or the address of an operation already started: storage reused):
-                    # a library-internal inline sender; identify it by its parent
-                    p = tok2op.get(ch[1]) if len(ch) > 1 else None
-                    cands = [c for c in t.children(p) if t.kind[c] == "J" and c not in begun] if p is not None else []
-                    if len(cands) != 1:
-                        raise Mismatch("unresolved start bracket: frame %s (parent %s) at %s %s" % (ch[0], p, o.what, o.id))
-                    op = cands[0]; tok2op[ch[0]] = op
-                if op is None:
-                    raise Mismatch("start bracket with a dangling frame seen first at %s %s" % (o.what, o.id))
-                begun.add(op)
-                node = ["S", op, None, []]
-            else:   # completion bracket
-                # who completes?  (a) a harness leaf that announced its completion at this depth, (b) the parent of
-                # the operation whose completion bracket is right below (the completion propagates), (c) the inline
-                # sender whose start bracket is right below.  When the bracket is the innermost one its frame chain
-                # (the copy, then the ancestors of the receiver's operation) discriminates.
-                cands = []
-                pd = pending.get(th)
-                if pd is not None and pd[1] == j:
-                    cands.append(pd[0])
+                parent_tok = ch[1] if ch and len(ch) > 1 else None
+                if op is None or op in beg or (below is not None and below[0] in ("S", "W") and t.par.get(op) != below[1]):
+                    # not on the observing leaf's path, or the address of an operation already started (storage
+                    # reused): a library-internal inline sender, started from the context of the bracket below
+                    ctx = None
+                    if below is not None:
+                        ctx = below[1] if below[0] in ("S", "W") else t.par.get(below[1])
+                    cs = [c for c in t.children(ctx) if t.kind[c] == "J" and c not in beg] if ctx is not None else []
+                    cands = [("S", c) for c in cs]
+                else:
+                    cands = [("S", op)]
+            else:
+                if pend is not None and pend[1] == j:
+                    cands.append(("C", pend[0]))
                 if below is not None and below[0] == "C" and t.par.get(below[1]) is not None and t.kind[t.par[below[1]]] != "wait":
-                    cands.append(t.par[below[1]])
+                    cands.append(("C", t.par[below[1]]))
                 if below is not None and below[0] == "S" and t.kind[below[1]] in ("inl", "J"):
-                    cands.append(below[1])
-                def fits(n):
-                    if j != len(keys) - 1 or not ch:
-                        return True
+                    cands.append(("C", below[1]))
+                # when_all / stop_when complete from whichever context drops the last reference: a child's
+                # completion (covered above) or the stop callback after it forwarded the stop request
+                for n2 in sorted(begun):
+                    if t.label[n2] in ("when_all", "stop_when") and n2 not in completed and ("C", n2) not in cands:
+                        cands.append(("C", n2))
+            for (k, n) in cands:
+                if k == "C" and j == nk - 1 and ch:
                     p = t.par.get(n)
-                    return len(ch) == 1 + (len(t.anc(t.par.get(p))) if p is not None else 0)
-                good = [c for c in cands if fits(c)]
-                if not good:
-                    raise Mismatch("unresolved completion bracket at %s %s (below: %s, candidates %s)" % (
-                        o.what, o.id, below and below[:2], cands))
-                op = good[0]
-                if pd is not None and op == pd[0]:
+                    want = 1 + (len(t.anc(t.par.get(p))) if p is not None else 0)
+                    if len(ch) != want:
+                        continue
+                if k == "S" and j == nk - 1 and ch and len(ch) != len(t.anc(n)):
+                    continue
+                rest = resolve(j + 1, (k, n), None if (k == "C" and pend is not None and pend[0] == n) else pend,
+                               beg | {n} if k == "S" else beg)
+                if rest is not None:
+                    return [(k, n)] + rest
+            return None
+        below0 = tuple(opens[th][-1][1][:2]) if opens[th] else None
+        sol = resolve(i, below0, pending.get(th), frozenset(begun))
+        if sol is None:
+            raise Mismatch("unresolved brackets at %s %s: stack %s, open %s" % (
+                o.what, o.id, [(k, c[0] if c else None) for (k, r, c, f) in stack], [n[1][:2] for n in opens[th]]))
+        for j, (k, n) in zip(range(i, nk), sol):
+            node = [k, n, 1 if k == "W" else None, []]
+            if k == "S":
+                begun.add(n)
+                if stack[j][2]: tok2op[stack[j][2][0]] = n
+            if k == "W" and stack[j][2]:
+                tok2op[stack[j][2][0]] = n
+            if k == "C":
+                completed.add(n)
+                if th in pending and pending[th][0] == n:
                     pending.pop(th)
-                node = ["C", op, None, []]
             body_of(th).append(node)
             opens[th].append((keys[j], node))
         if o.what == "complete":
@@ -260,7 +277,7 @@ def reconstruct(t, obs, wait=False, nthreads=1):
     def show(node):
         k, a, b, ch = node
         if k == "O": return "(O %d)" % a
-        head = {"S": "S %d" % a if k == "S" else "", "C": "C %d" % a if k == "C" else "", "W": "W %s %s" % (a, b), "L": "L"}[k]
+        head = {"S": "S %s" % a, "C": "C %s" % a, "W": "W %s %s" % (a, b), "L": "L"}[k]
         return "(" + " ".join([head] + [show(c) for c in ch]) + ")"
     return [" ".join(show(n) for n in p) for p in progs], expected
 
